@@ -61,6 +61,16 @@ TraceFunc == /\ IsEvent("Func")
                      ELSE Reject
              /\ Keep
 
+\* Tag.ModTagTimestamp: the re-stamped tag is the tag packed with the new timestamp
+TraceMod == /\ IsEvent("Mod")
+            /\ LET e == Trace[l]
+               IN IF /\ ~failed /\ e.fields = TagFields(e.t, e.n, e.ts) /\ e.payloadOk
+                     /\ e.lal = [type |-> e.t, size |-> e.n, ts |-> e.ts, rawOk |-> TRUE, hdrTs |-> e.ts]
+                     /\ e.total = 11 + e.n + 4
+                    THEN UNCHANGED <<mode, stage, ntags, failed>>
+                    ELSE Reject
+            /\ Keep
+
 TraceWs == /\ IsEvent("Ws")
            /\ LET e == Trace[l]
               IN IF ~failed /\ e.fields = WsFields(e.n)
@@ -68,7 +78,7 @@ TraceWs == /\ IsEvent("Ws")
                    ELSE Reject
            /\ Keep
 
-TraceNext == TraceReset \/ TraceOpen \/ TraceHdr \/ TraceTag \/ TraceEnd \/ TraceFunc \/ TraceWs
+TraceNext == TraceReset \/ TraceOpen \/ TraceHdr \/ TraceTag \/ TraceEnd \/ TraceFunc \/ TraceMod \/ TraceWs
 TraceSpec == TraceInit /\ [][TraceNext]_tvars
 HighWater == TLCSet(1, IF l > TLCGet(1) THEN l ELSE TLCGet(1))
 Accept == PrintT("@HW@" \o ToString(TLCGet(1)))
